@@ -235,8 +235,10 @@ def g09_guard(obj_before, fresh_after):
     return True
 
 
-K_DC = "C09-rundcpp-stale-results"
-K_OPF = "C09-opf-stale-lookups"
+# both history dependences found by this oracle (rundcpp kept result tables, runopp reused lookups) are repaired: their
+# classification keys no longer exist, a recurrence is an ordinary violation
+K_DC = "spec"
+K_OPF = "spec"
 _DC_UNCOMPUTED = {}
 
 
@@ -424,7 +426,7 @@ def access_case(ctx, rng, terms, expect):
     kind, k, f = rng.choice([
         ("runpp", 0, lambda n: pp.runpp(n, numba=False, init=rng.choice(["auto", "flat", "dc"]))),
         ("runpp_results", 1, lambda n: pp.runpp(n, numba=False, init="results")),
-        ("rundcpp", 1, lambda n: pp.rundcpp(n)),
+        ("rundcpp", 0, lambda n: pp.rundcpp(n)),
         ("runopp", 2, lambda n: pp.runopp(n, numba=False, calculate_voltage_angles=False))])
     with AccessLog(obj) as log:
         try:
